@@ -30,6 +30,23 @@ theorem ensembleTrace_eq (σ : Schedule) (p : Nat) (draw : ρ → Sig × ρ) (g 
   rw [runPool_eq_map σ N p _ _ (length_drawN draw N g) hσ, drawN_eq_map, List.map_map]
   rfl
 
+/-- the decomposition of member `i` (repaired code) -/
+def member (draw : ρ → Sig × ρ) (g : ρ) (S : Sig → List Sig) (mode : Mode) (scale : Rat) (x : Sig) (i : Nat) : List Sig :=
+  siftWithNoise S mode (some scale) x (nthDraw draw g i)
+
+/-- number of columns of the ensemble result: those of the widest member (members are capped by their sift) -/
+def width (draw : ρ → Sig × ρ) (g : ρ) (S : Sig → List Sig) (mode : Mode) (N : Nat) (scale : Rat) (x : Sig) : Nat :=
+  maxWidth ((List.range N).map (member draw g S mode scale x))
+
+/-- the driver's counter generator hands out `[g]`, `[g+1]`, … -/
+theorem nthDraw_counter (g k : Nat) : nthDraw counterDraw g k = [((g + k : Nat) : Rat)] := by
+  induction k generalizing g with
+  | zero => rfl
+  | succ k ih =>
+    rw [nthDraw_succ]
+    simp only [counterDraw]
+    rw [ih]
+    congr 2; omega
 /-! ### fork-draw (pinned code) -/
 
 /-- generator state after `k` draws -/
